@@ -87,6 +87,8 @@ pub struct Obs {
     pub sample: Option<Value>,
     /// work units beyond "one case" (e.g. ops executed, mutants tried)
     pub units: u64,
+    /// listed known findings that were met (and stepped over) while checking this case
+    pub known: Vec<String>,
 }
 
 impl Obs {
@@ -103,6 +105,31 @@ impl Obs {
     pub fn nontrivial(&mut self, v: bool) {
         self.nontrivial |= v;
     }
+    /// If `key` is a listed known finding of the running property: count it and return true,
+    /// so that the oracle can step over exactly this occurrence and keep checking the case.
+    pub fn step_over_known(&mut self, key: &str) -> bool {
+        if is_known_key(key) {
+            if !self.known.iter().any(|k| k == key) {
+                self.known.push(key.to_string());
+            }
+            true
+        } else {
+            false
+        }
+    }
+}
+
+thread_local! {
+    static KNOWN_KEYS: RefCell<Vec<String>> = const { RefCell::new(Vec::new()) };
+}
+
+/// keys of the listed known findings of the property being checked (set by the driver)
+pub fn set_known_keys(keys: Vec<String>) {
+    KNOWN_KEYS.with(|k| *k.borrow_mut() = keys);
+}
+
+pub fn is_known_key(key: &str) -> bool {
+    KNOWN_KEYS.with(|k| k.borrow().iter().any(|x| x == key))
 }
 
 pub type CaseResult = Result<(), Fail>;
@@ -261,6 +288,9 @@ impl Recorder {
         self.rep.units += obs.units;
         for c in &obs.classes {
             *self.rep.classes.entry((*c).to_string()).or_default() += 1;
+        }
+        for k in &obs.known {
+            *self.rep.excluded_known.entry(k.clone()).or_default() += 1;
         }
         if obs.nontrivial {
             self.rep.nontrivial_total += 1;
@@ -460,7 +490,12 @@ where
 
 fn outcome_of<T: Serialize>(ctx: &ShardCtx, o: Outcome, case: &T) -> SubOutcome {
     match o {
-        Outcome::Pass(_) => SubOutcome::Held,
+        Outcome::Pass(obs) => {
+            for k in &obs.known {
+                println!("KNOWN-FINDING: property={} {}", ctx.property, k);
+            }
+            SubOutcome::Held
+        }
         Outcome::Fail(f) => {
             if ctx.is_known(&f.key) {
                 println!("KNOWN-FINDING: property={} {}", ctx.property, f.key);
@@ -616,6 +651,7 @@ pub fn main_with(registry: Vec<Property>) -> ! {
             let of: u32 = get("--of").and_then(|s| s.parse().ok()).unwrap_or_else(|| usage());
             let out = get("--out").unwrap_or_else(|| usage());
             let ctx = ShardCtx { property: prop.id, tier, seed, shard, shards: of, root: &root, known: &known };
+            set_known_keys(known.iter().filter(|k| k.property == prop.id && k.status == "known").map(|k| k.key.clone()).collect());
             let rep = run_shard(prop, &ctx, only.as_deref());
             let code = if rep.violation.is_some() {
                 1
@@ -630,6 +666,7 @@ pub fn main_with(registry: Vec<Property>) -> ! {
         "replay" => {
             let file = args.get(3).cloned().unwrap_or_else(|| usage());
             let ctx = ShardCtx { property: prop.id, tier, seed, shard: 0, shards: 1, root: &root, known: &known };
+            set_known_keys(known.iter().filter(|k| k.property == prop.id && k.status == "known").map(|k| k.key.clone()).collect());
             std::process::exit(replay_file(prop, &ctx, Path::new(&file), true))
         }
         _ => usage(),
